@@ -152,7 +152,7 @@ PROPS = {
         assumptions=["callers on several threads are modelled by the Alloc / Enqueue split of Start (id taken under the shared mutex, request handed to the driver later; exercised on the real code through the hook verif_hold_next_alloc); true parallelism inside next_msgid itself is the mutex's business (oracle-only mt lane)", "theorems over whole histories: below the wrap-around of the 31-bit id counter (beyond it: the id-table hook lane)"],
     ),
     "C10": dict(
-        groups=[("stream", 2000, 150000), ("conn", 300, 20000), ("pagedstop", 400, 30000), ("pagedlost", 150, 6000), ("paged", 300, 20000)],
+        groups=[("stream", 2000, 150000), ("conn", 300, 20000), ("pagedstop", 400, 30000), ("pagedlost", 150, 6000), ("paged", 300, 20000), ("pagedabandon", 80, 3000)],
         exact_lanes=["stream", "paged"],
         rule="server scripts of 0-7 items (entries, references with 1-2 URIs, intermediate responses) ending with a SearchResultDone (rc 0/4/10/32/53, 0-2 referral URIs, 0-2 controls), all delivered before the first call, x call sequences of 0-17 next()/finish()/state() calls in any order including past the end, on direct streams, EntriesOnly-adapted streams and Ldap::search(); plus connection scripts where items arrive between calls. non-trivial = distinct case with at least one call",
         trivial=[],
@@ -160,7 +160,7 @@ PROPS = {
         assumptions=["user-defined adapters are out of scope", "items are delivered before the calls in the stream lane (timing and interleaving are the conn lane's)"],
     ),
     "C16": dict(
-        groups=[("paged", 1500, 100000)],
+        groups=[("paged", 1500, 100000), ("pagedabandon", 80, 3000)],
         exact_lanes=["paged"],
         rule="result sets of 0-29 items (entries, references, intermediates) served in pages of 1-8 by a scripted paging server, cookies of 1/2/8/300 bytes, last page with an empty cookie or no paging control, result codes 0/4 on the last page, 0-2 unrelated controls on results, 0-2 caller controls, 1 in 17 with a caller-supplied paging control; the server logs size, cookie, other controls and whether base/scope/filter/attributes/options are unchanged in every request. non-trivial = distinct case with at least one item",
         trivial=["rejected"],
